@@ -283,6 +283,8 @@ def run(ctx):
     stats["deny_session_ops"] = 0
     for sc, (io, mo) in zip(sscripts, sess.run_session(ctx, sscripts)):
         tr = SC.parse_trace(io, sc)
+        for h in SC.mon_records(tr):
+            v.violation("C09:" + h[0], "an accepted request among denied ones: " + h[1], {"port": "session", "script": sc, "impl": io[-12:]})
         last_ctr, last_store = None, None
         for i, (op, lines) in enumerate(tr):
             f = op.split()
